@@ -1,8 +1,8 @@
 """C04 — step start times obey the documented rate, phase, delay and scheduling law."""
 from pyvc.driver import check_property
-from . import async_node
+from . import async_node, async_conn
 
-UNITS = async_node.UNITS
+UNITS = [u for u in async_node.UNITS + async_conn.UNITS if "C04" in u.props]
 
 
 def check(tier, seed):
